@@ -419,13 +419,14 @@ Definition contract_privacy (a : app) : app :=
 Definition toggle_asinfo (a : app) : app :=
   if resolver_system (a_view a) then a else with_view a (set_as_info (a_view a) (negb (as_info (a_view a)))).
 
-(* max_hosts(): hops.iter().map(|h| h.addrs().count()).max().and_then(|i| u8::try_from(i).ok()) *)
+(* max_hosts(): hops.iter().map(|h| h.addrs().count()).max().and_then(|i| u8::try_from(i).ok()).filter(|i| *i > 0)
+   (zero is no maximum: repaired, F21) *)
 Definition max_hosts (a : app) : result (option Z) :=
   let* hs := hops_for_flow (data a) (sel_flow (a_sel a)) in
   match hs with
   | [] => Ok None
   | _ => let m := fold_right (fun h acc => Z.max (hs_addrs h) acc) 0 hs in
-         Ok (if m <=? 255 then Some m else None)
+         Ok (if (m <=? 255) && (0 <? m) then Some m else None)
   end.
 
 Definition expand_hosts (a : app) : result app :=
